@@ -208,8 +208,24 @@ def op_none(*args, **kw):
     return None
 
 
+def op_mixnum(*args, **kw):
+    """Python int for some rows, float for others (a clip against an integer constant does this): the stacked result
+    type is decided by ALL rows, not by the first one."""
+    c, draw = _checksum(args, kw)
+    _record(args, kw, draw)
+    return int(c) if int(c * 2) % 2 == 0 else c + 0.25
+
+
+def op_mixstr(*args, **kw):
+    """Strings whose length depends on the row."""
+    c, draw = _checksum(args, kw)
+    _record(args, kw, draw)
+    return 'r' + 'x' * (int(c * 2) % 4)
+
+
 OPS = {'num': op_num, 'int': op_int, 'vec2': op_vec2, 'dict': op_dict, 'ragged': op_ragged, 'str': op_str,
-       'none': op_none}
+       'none': op_none, 'mixnum': op_mixnum, 'mixstr': op_mixstr}
+MIXED = [0]        # calls whose first row has a narrower type than a later row (int before float, short before long)
 
 
 def _kwargs(variant, seed):
@@ -254,6 +270,9 @@ def ref_vectorize(op, inputs, mask, dtype, batch_size, kwargs):
             kw['meta'] = dict(kw['meta'], index_in_batch=r)
         rows.append(op(*args, **kw))
     res = {'const': const, 'rows': rows, 'bs': bs}
+    if rows and ((isinstance(rows[0], int) and any(isinstance(r, float) for r in rows[1:])) or
+                 (isinstance(rows[0], str) and any(isinstance(r, str) and len(r) > len(rows[0]) for r in rows[1:]))):
+        MIXED[0] += 1
     if dtype is False:
         out = np.empty(bs, dtype=object)
         for r in range(bs):
@@ -419,6 +438,7 @@ def run_vec(case):
     outs = set()
     rejects = convs = 0
     done = []
+    MIXED[0] = 0
     for sub in _subcases(case):
         vs = shared.get(sub['ret'])
         if vs is None:
@@ -447,7 +467,7 @@ def run_vec(case):
         convs += od.startswith('conv')
         done.append(sub)
     r = ok(outcome=digest(sorted(outs)), vec_calls=n, vec_length_rejections=rejects, vec_numpy_refuses_stack=convs,
-           vec_distinct_outputs_per_case_sum=len(outs))
+           vec_distinct_outputs_per_case_sum=len(outs), vec_first_row_narrower_than_a_later_row=MIXED[0] // 2)
     r.update(evals=n, distinct=n)
     return r
 
@@ -1075,14 +1095,14 @@ def run(ctx):
     # ---------------------------------------------------------------- vectorize, direct
     k7 = ['py', 'a0', 'v', 'm2', 'list', 'str', 'vlong']
     if q:
-        std = dict(bs=[1, 2, 3], rets=['num', 'vec2', 'dict'], kws=['none', 'meta', 'all'])
+        std = dict(bs=[1, 2, 3], rets=['num', 'vec2', 'dict', 'mixnum', 'mixstr'], kws=['none', 'meta', 'all'])
         plan = {0: dict(std, kinds=['py']), 1: dict(std, kinds=k7), 2: dict(std, kinds=k7),
                 3: dict(kinds=['py', 'v', 'm2', 'list', 'vlong'], bs=[1, 2, 3], rets=['num', 'vec2'],
                         kws=['none', 'all'])}
         dts = ['None', 'float', 'int', 'object', 'False']
     else:
         full = ['py', 'pyint', 'a0', 'v', 'vi', 'm2', 'm1', 'list', 'tuple', 'str', 'none', 'vlong', 'v1']
-        std = dict(bs=[1, 2, 3, 4], rets=['num', 'int', 'vec2', 'dict', 'ragged', 'str', 'none'],
+        std = dict(bs=[1, 2, 3, 4], rets=['num', 'int', 'vec2', 'dict', 'ragged', 'str', 'none', 'mixnum', 'mixstr'],
                    kws=['none', 'meta', 'rs', 'extra', 'all'])
         plan = {0: dict(std, kinds=['py']), 1: dict(std, kinds=full), 2: dict(std, kinds=full, bs=[1, 2, 3]),
                 3: dict(kinds=['py', 'a0', 'v', 'm2', 'list', 'str', 'vlong'], bs=[1, 2, 3],
